@@ -85,6 +85,22 @@ static size_t put_dec(char *o, size_t p, long long v)
     return p;
 }
 
+/* the bytes handed to destination `dest`, in order, over ALL write records (a record may be assembled by several stdio
+ * calls - fputs + fputc, two fprintf - what counts for C04 is the byte stream; the number of write() system calls is C17) */
+static int stream_is(int dest, const char *want, size_t wl)
+{
+    size_t p = 0;
+    for (int i = 0; i < V_NW; i++) {
+        if (i >= v_nw) break;
+        if (v_w[i].dest != dest) return 0;                   /* something went elsewhere */
+        for (size_t k = 0; k < v_w[i].len && k < V_WCAP; k++) {
+            if (p >= wl || v_w[i].data[k] != want[p]) return 0;
+            p++;
+        }
+    }
+    return p == wl;
+}
+
 static int rec_is(const struct v_wrec *r, int dest, const char *want, size_t wl)
 {
     if (r->dest != dest || r->len != wl) return 0;
@@ -118,7 +134,7 @@ static void run_once(void)
             else if (v_w[i].dest == V_DEST_STDOUT) nout++;
             else nerr++;
         }
-        V_ASSERT(v_nw <= 1, "C04: at most one record per logged exec (no error records can arise here)");
+        V_ASSERT(v_nw <= V_NW, "C04: bounded number of write calls per logged exec");
         switch (IN.out) {
         case 1: case 2: case 3: {               /* devnull, devtty, file */
             const char *path = (IN.out == 1) ? "/dev/null" : (IN.out == 2) ? "/dev/tty" : IN.arg;
@@ -128,11 +144,15 @@ static void run_once(void)
             V_ASSERT(v_last_mode[0] == 'a' && v_last_mode[1] == '\0', "C17: destination opened for appending only (never truncated, never seeked)");
             V_ASSERT(nsock == 0 && nout == 0 && nerr == 0 && v_sock_calls == 0, "C04: nothing is written anywhere else");
             if (v_fopen_ok == 1) {
-                V_ASSERT(v_nw == 1 && nfile == 1, "C04: exactly one record is written to the opened file");
+                V_ASSERT(v_nw >= 1 && nfile == v_nw, "C04: the record is written to the opened file");
                 for (size_t i = 0; i < ml; i++) want[wl++] = IN.msg[i];
                 want[wl++] = '\n';
-                V_ASSERT(rec_is(&v_w[0], V_DEST_FILE, want, wl), "C04: file record is the message plus a newline, byte for byte");
+                int all_complete = 1;
+                for (int i = 0; i < V_NW && i < v_nw; i++) if (!v_w[i].complete) all_complete = 0;
+                if (all_complete) V_ASSERT(stream_is(V_DEST_FILE, want, wl), "C04: file record is the message plus a newline, byte for byte");
+                else V_ASSERT(v_w[0].dest == V_DEST_FILE, "C04: a failing write still targets the configured file only");
 #ifdef CHECK_C17
+                V_ASSERT(v_nw == 1, "C17: the record is handed over by exactly one write call");
                 if (v_w[0].complete)
                     V_ASSERT(v_st[0].os_writes == 1 && v_st[0].os_bytes == wl, "C17: the record reaches the descriptor in exactly one write()");
 #endif
@@ -145,7 +165,11 @@ static void run_once(void)
             int d = (IN.out == 5) ? V_DEST_STDERR : V_DEST_STDOUT;
             for (size_t i = 0; i < ml; i++) want[wl++] = IN.msg[i];
             want[wl++] = '\n';
-            V_ASSERT(v_nw == 1 && rec_is(&v_w[0], d, want, wl), "C04: stdout/stderr record is the message plus a newline on that stream only");
+            int all_ok = 1;
+            for (int i = 0; i < V_NW && i < v_nw; i++) if (!v_w[i].complete) all_ok = 0;
+            V_ASSERT(v_nw >= 1, "C04: stdout/stderr output writes the record");
+            if (all_ok) V_ASSERT(stream_is(d, want, wl), "C04: stdout/stderr record is the message plus a newline on that stream only");
+            else V_ASSERT(v_w[0].dest == d, "C04: a failing write still targets the configured stream only");
             V_ASSERT(v_fopen_calls == 0 && v_sock_calls == 0, "C04: nothing is written anywhere else");
             V_ASSERT(v_stdout_pending == 0, "C04: the record is handed to the operating system before the real exec (nothing left in a stdio buffer)");
             break;
